@@ -1965,6 +1965,16 @@ impl XmlDocumentTypeDeclaration {
                     parser::DeclarationMarkup::Entity(v) => match v {
                         parser::DeclarationEntity::GeneralEntity(v) => {
                             let entity = XmlEntity::node(v, declaration_id, context);
+                            // WFC: Legal Character
+                            if let Some(values) = entity.as_entity().unwrap().borrow().values() {
+                                for value in values {
+                                    match value {
+                                        XmlEntityValue::Character(c, 10) => char_from_char10(c)?,
+                                        XmlEntityValue::Character(c, _) => char_from_char16(c)?,
+                                        _ => continue,
+                                    };
+                                }
+                            }
                             declaration.borrow_mut().push_child(entity);
                         }
                         parser::DeclarationEntity::ParameterEntity(_) => {
@@ -4372,6 +4382,10 @@ fn entity_value_from_names(
                     _ => unreachable!(),
                 };
                 if normalize {
+                    // WFC: No < in Attribute Values
+                    if c == '<' {
+                        return Err(error::Error::InvalidData(name));
+                    }
                     parsed.push_str(normalize_ws(c.to_string().as_str()).as_str());
                 } else {
                     parsed.push(c);
@@ -4390,6 +4404,10 @@ fn entity_value_from_names(
             }
             XmlEntityValue::Parameter(_) => {
                 unimplemented!("Not support parameter entity reference.")
+            }
+            // WFC: No < in Attribute Values
+            XmlEntityValue::Text(v) if normalize && name != "lt" && v.contains('<') => {
+                return Err(error::Error::InvalidData(name));
             }
             XmlEntityValue::Text(v) if normalize => parsed.push_str(normalize_ws(v).as_str()),
             XmlEntityValue::Text(v) => parsed.push_str(v),
